@@ -61,6 +61,18 @@ func genC17(t *simrt.Tape, tier string) interface{} {
 	}
 	p.Latency = []int{0, 0, 2, 30}[t.Draw(4)]
 	p.Bcast = []int{0, 0, 1, 3}[t.Draw(4)]
+	if t.Draw(4) == 0 {
+		// a connection pool: several clients present one and the same candidate node, their
+		// registrations overlap on a backend that takes its time
+		for i := range p.Clients {
+			if t.Draw(3) != 0 {
+				p.Clients[i].Pooled = true
+				p.Clients[i].Auth = "plain"
+				p.StartMs[i] = 0
+			}
+		}
+		p.Conf.RegDelayMs = []int{1, 10, 100}[t.Draw(3)]
+	}
 	return p
 }
 
@@ -371,6 +383,23 @@ func runC17(w *World, pi interface{}) {
 		}
 		if len(c.got) < len(c.sent) && !c.aborted {
 			w.Violate("C17.reply-did-not-reach-originator", sig("reply"), "client %d sent %v and received only %v through the handler's sender", i, c.sent, c.got)
+		}
+	}
+	// the address announced to a session is the one the registration callback returned for that session
+	regOf := map[string]string{}
+	for _, e := range f.H.Ev {
+		if e.Kind == "reg" {
+			regOf[fstr(e.Frame, "id")] = fstr(e.Frame, "node")
+		}
+	}
+	for i, c := range cs {
+		if !c.ok {
+			continue
+		}
+		if n, ok := regOf[c.sid]; !ok {
+			w.Violate("C17.announced-node-not-registered-for-session", sig("never asked"), "client %d (session %s) was announced node %s, but the registration callback was never asked for an address for that session", i, c.sid, c.local)
+		} else if n != c.local {
+			w.Violate("C17.announced-node-not-registered-for-session", sig("other node"), "client %d (session %s) was announced node %s, the registration callback had returned %s for that session", i, c.sid, c.local, n)
 		}
 	}
 	// a broadcast envelope carries no destination or the receiver's own node, never another session's
